@@ -304,6 +304,7 @@ func TestC01Random(t *testing.T) {
 		}
 		c.Exp = expectFromModel(m, &lang.Program{Stmts: []lang.Stmt{lang.Return{X: expr}}})
 		c.Hazard = lang.HasRange(expr)
+		c.HashOrder = lang.HasMultiHash(expr)
 		if e := runCase(c); e != nil {
 			violation(rt, "C01", c, "%v", e)
 		}
